@@ -10,7 +10,7 @@ for d in seeded/*/; do
     id=$(basename $d)
     [ -f $d/patch.diff ] || continue
     prop=$(python3 -c "import json;print(json.load(open('$d/meta.json'))['property'])")
-    log=/tmp/matrix-$id.log
+    log=/verif/target/matrix-$id.log
     VERIF_WATCHDOG_S=${VERIF_WATCHDOG_S:-15} timeout 1200 tools/run_mutant.sh /verif/$d/patch.diff $prop > $log 2>&1
     rc=$?
     git -C /repo checkout -- .
